@@ -93,7 +93,10 @@ def sensitivity(argv):
         try:
             shutil.copytree(os.path.join(core.REPO, "ctparse"), os.path.join(tmp, "ctparse"),
                             ignore=shutil.ignore_patterns("__pycache__"))
-            p = subprocess.run(["git", "apply", "--unsafe-paths", "--directory=" + tmp,
+            # only the package is copied to the scratch directory: hunks for README, HISTORY,
+            # docs ... are left out
+            p = subprocess.run(["git", "apply", "--unsafe-paths", "--include=*ctparse/*",
+                                "--directory=" + tmp,
                                 os.path.join(root, name, "patch.diff")],
                                cwd="/", stdout=subprocess.PIPE, stderr=subprocess.STDOUT, text=True)
             if p.returncode != 0:
@@ -102,6 +105,12 @@ def sensitivity(argv):
                                    stdout=subprocess.PIPE, stderr=subprocess.STDOUT, text=True)
             if p.returncode != 0:
                 print("sensitivity %s: patch does not apply: %s" % (name, p.stdout[-300:]))
+                missed += 1
+                continue
+            d = subprocess.run(["diff", "-rq", os.path.join(core.REPO, "ctparse"),
+                                os.path.join(tmp, "ctparse")], stdout=subprocess.PIPE, text=True)
+            if not d.stdout.strip():
+                print("sensitivity %s: patch changed nothing in the scratch copy" % name)
                 missed += 1
                 continue
             caught = []
